@@ -27,12 +27,12 @@ func (e *Error) updateFromTokenIfNeeded(template *Template, t *Token) *Error {
 		e.Template = template
 	}
 
-	if e.Token == nil {
+	// An error which already carries a position (a lexer error of a
+	// sub-template) keeps it; the given token belongs to a different place.
+	if e.Token == nil && e.Line <= 0 {
 		e.Token = t
-		if e.Line <= 0 {
-			e.Line = t.Line
-			e.Column = t.Col
-		}
+		e.Line = t.Line
+		e.Column = t.Col
 	}
 
 	return e
